@@ -287,16 +287,28 @@ func expectQuality(s string) (q float64, rest string) {
 		return q, s
 	}
 	s = s[1:]
+	// Only the first 18 digits are accumulated: more would overflow n and d
+	// (turning the quality negative and the range invalid) and are beyond the
+	// precision of a float64 anyway.
+	const maxScale = int64(1e18)
 	i := 0
-	n := 0
-	d := 1
+	n := int64(0)
+	d := int64(1)
+	more := false
 	for ; i < len(s); i++ {
 		b := s[i]
 		if b < '0' || b > '9' {
 			break
 		}
-		n = n*10 + int(b) - '0'
-		d *= 10
+		if d < maxScale {
+			n = n*10 + int64(b-'0')
+			d *= 10
+		} else if b != '0' {
+			more = true
+		}
+	}
+	if n == 0 && more {
+		n = 1 // a positive quality never collapses to 0 ("not acceptable")
 	}
 	return q + float64(n)/float64(d), s[i:]
 }
